@@ -1,137 +1,243 @@
-import Account.ModifiersLemmas
+import Account.NestsLemmas
 /-!
 # C09 — Signer, writable, address, program, sysvar and owner checks are exact
 
-Property theorems only (helpers: `Account/ModifiersLemmas.lean`; model: `Account/Modifiers.lean`).
+Property theorems only (model: `Account/Nests.lean`, which builds on `Account/Modifiers.lean`
+(`fastEq32`) and C08's `Account/Validate.lean`; helpers: `Account/NestsLemmas.lean`).
+
+The layer grammar: single-account chains of `Signer` / `Mut` / `MaybeSigner<false>` /
+`MaybeMut<false>` / `Box` / flag-advertising user sets / address-checked wrappers / `Seeded` /
+`Init` (`CreateIfNeeded`) over `AccountInfo`, `SystemAccount`, `Program<P>`, `Sysvar<T>`,
+`Account<T>`, `BorshAccount<T>`; carriers `Option`, `Box`, `[T; N]`, `Vec`, `Rest`, multi-field
+structs and `#[validate(address = …)]` fields — at ANY nesting depth.
 -/
 namespace Account.C09
-open Common Account.Modifiers
+open Common Account.Validate Account.Nests
+open Account.Modifiers (fastEq32 Key32 systemId)
 
 /-- The framework's fast 32-byte key comparison is plain byte equality — for ALL pairs of 32-byte
-keys (so in particular pairs differing in one bit or one byte anywhere). -/
+keys (so in particular pairs differing in one bit, one byte, or in several words at once). -/
 theorem fastEq32_iff_eq {a b : List Nat} (ha : Key32 a) (hb : Key32 b) :
     fastEq32 a b = true ↔ a = b := Account.Modifiers.fastEq32_iff ha hb
 
-/-- Each base check accepts exactly the accounts it describes. -/
-theorem base_exact {b : Base} {a : Acct} (hb : baseWF b) (ha : acctWF a) :
-    validateBase b a = .ok () ↔ baseOk b a := validateBase_ok_iff hb ha
+/-- Each individual check accepts exactly the accounts it describes. (`Account<T>` /
+`BorshAccount<T>`: C08's `validate_account_info`, characterised by `Account.C08.admit_iff`.) -/
+theorem base_exact (a : NAcct) (hk : Key32 a.key) (ho : Key32 a.a.owner) :
+    (evalCheck a .isSigner = .ok () ↔ a.signer = true) ∧
+    (evalCheck a .isWritable = .ok () ↔ a.a.writable = true) ∧
+    (∀ k e, Key32 k → (evalCheck a (.keyIs k e) = .ok () ↔ a.key = k)) ∧
+    (evalCheck a .ownerIsSystem = .ok () ↔ a.a.owner = systemId) ∧
+    (∀ t, evalCheck a (.progAcct t) = validateAccountInfo t a.a) ∧
+    (runChecks a (baseChecks .info) = .ok ()) :=
+  ⟨eval_isSigner a, eval_isWritable a, fun _ e hk' => eval_keyIs e hk hk', eval_ownerIsSystem ho,
+    fun _ => rfl, rfl⟩
 
-/-- Arbitrary nestings (any depth) accept iff every layer and the base accept. -/
-theorem nest_accepts_iff_all (ls : List Layer) (b : Base) (a : Acct)
-    (hls : ∀ l ∈ ls, layerWF l) (hb : baseWF b) (ha : acctWF a) :
-    validateL ls b a = .ok () ↔ (∀ l ∈ ls, layerOk l a) ∧ baseOk b a := by
-  induction ls with
-  | nil => simp [validateL, validateBase_ok_iff hb ha]
-  | cons l ls ih =>
-    have ih := ih (fun l hl => hls l (List.mem_cons_of_mem _ hl))
-    have hl := hls l (List.mem_cons_self)
-    cases l with
-    | signer =>
-      simp only [validateL, List.forall_mem_cons, and_assoc]
-      rw [← ih]
-      simp only [layerOk]
-      generalize validateL ls b a = r
-      rcases r with e | ⟨⟩ <;> cases hs : a.signer <;> simp
-    | wr =>
-      simp only [validateL, List.forall_mem_cons, and_assoc]
-      rw [← ih]
-      simp only [layerOk]
-      generalize validateL ls b a = r
-      rcases r with e | ⟨⟩ <;> cases hs : a.writable <;> simp
-    | nsigner => simp [validateL, layerOk, ih]
-    | nmut => simp [validateL, layerOk, ih]
-    | advw => simp [validateL, layerOk, ih]
-    | advs => simp [validateL, layerOk, ih]
-    | addr k =>
-      simp only [validateL, List.forall_mem_cons, and_assoc]
-      rw [← ih]
-      simp only [layerOk]
-      have hk := fastEq32_iff ha.1 hl
-      cases hf : fastEq32 a.key k with
-      | true => simp [hk.mp hf]
-      | false =>
-        have : a.key ≠ k := fun e => by simp [hk.mpr e] at hf
-        simp [this]
+/-- What a chain must satisfy, layer by layer. -/
+def LayerOk (b : Base) (a : NAcct) (l : Layer) : Prop := ∀ c ∈ layerChecks b l, evalCheck a c = .ok ()
+def BaseOk (b : Base) (a : NAcct) : Prop := ∀ c ∈ baseChecks b, evalCheck a c = .ok ()
 
-/-- A rejected account is rejected with the error class of a check that really fails on it. -/
-theorem error_names_failing_check (ls : List Layer) (b : Base) (a : Acct) (e : Err)
-    (hls : ∀ l ∈ ls, layerWF l) (hb : baseWF b) (ha : acctWF a)
-    (h : validateL ls b a = .error e) :
-    (∃ l ∈ ls, ¬ layerOk l a ∧ e = layerErr l) ∨ (¬ baseOk b a ∧ e = baseErr b) := by
-  induction ls with
-  | nil =>
-    right
-    have := validateBase_err hb ha (by simpa [validateL] using h)
-    exact ⟨this.2, this.1⟩
-  | cons l ls ih =>
-    have ih := ih (fun l hl => hls l (List.mem_cons_of_mem _ hl))
-    have hl := hls l (List.mem_cons_self)
-    have lift : ((∃ l ∈ ls, ¬ layerOk l a ∧ e = layerErr l) ∨ (¬ baseOk b a ∧ e = baseErr b)) →
-        ((∃ l' ∈ l :: ls, ¬ layerOk l' a ∧ e = layerErr l') ∨ (¬ baseOk b a ∧ e = baseErr b)) := by
-      rintro (⟨l', hm, hx⟩ | hx)
-      · exact Or.inl ⟨l', List.mem_cons_of_mem _ hm, hx⟩
-      · exact Or.inr hx
-    cases l with
-    | signer =>
-      simp only [validateL] at h
-      cases hv : validateL ls b a with
-      | error e' => rw [hv] at h; simp at h; subst h; exact lift (ih hv)
-      | ok u =>
-        rw [hv] at h; cases u
-        cases hs : a.signer with
-        | true => simp [hs] at h
-        | false =>
-          simp [hs] at h; subst h
-          exact Or.inl ⟨.signer, List.mem_cons_self, by simp [layerOk, hs], rfl⟩
-    | wr =>
-      simp only [validateL] at h
-      cases hv : validateL ls b a with
-      | error e' => rw [hv] at h; simp at h; subst h; exact lift (ih hv)
-      | ok u =>
-        rw [hv] at h; cases u
-        cases hs : a.writable with
-        | true => simp [hs] at h
-        | false =>
-          simp [hs] at h; subst h
-          exact Or.inl ⟨.wr, List.mem_cons_self, by simp [layerOk, hs], rfl⟩
-    | nsigner => exact lift (ih (by simpa [validateL] using h))
-    | nmut => exact lift (ih (by simpa [validateL] using h))
-    | advw => exact lift (ih (by simpa [validateL] using h))
-    | advs => exact lift (ih (by simpa [validateL] using h))
-    | addr k =>
-      simp only [validateL] at h
-      cases hf : fastEq32 a.key k with
-      | true => rw [hf] at h; exact lift (ih (by simpa using h))
-      | false =>
-        rw [hf] at h; simp at h; subst h
-        have : a.key ≠ k := (fastEq32_false_iff ha.1 hl).mp hf
-        exact Or.inl ⟨.addr k, List.mem_cons_self, by simpa [layerOk] using this, rfl⟩
+/-- What a key-checked (`#[validate(address = k)]`) carrier must satisfy: the account, if present,
+has that key. -/
+def KeyOk (k : List Nat) : DSet → Prop
+  | .single _ _ a => evalCheck a (.keyIs k .addressMismatch) = .ok ()
+  | .some d => KeyOk k d
+  | .boxed d => KeyOk k d
+  | _ => True
 
-/-- The inner layers are checked before the outer ones: an error raised below a signer / mutable
-wrapper is reported unchanged. -/
-theorem inner_error_first (l : Layer) (ls : List Layer) (b : Base) (a : Acct) (e : Err)
-    (hl : l = .signer ∨ l = .wr ∨ l = .nsigner ∨ l = .nmut ∨ l = .advw ∨ l = .advs)
-    (h : validateL ls b a = .error e) : validateL (l :: ls) b a = .error e := by
-  rcases hl with rfl | rfl | rfl | rfl | rfl | rfl <;> simp [validateL, h]
+/-- Every layer, every base, every address check, every element accepts. -/
+def AllOk : DSet → Prop
+  | .single ls b a => (∀ l ∈ ls, LayerOk b a l) ∧ BaseOk b a
+  | .absent => True
+  | .some d => AllOk d
+  | .boxed d => AllOk d
+  | .addr k d => KeyOk k d ∧ AllOk d
+  | .nil => True
+  | .cons d rest => AllOk d ∧ AllOk rest
 
-/-- Optional accounts: absent is accepted only under `Option`, present delegates to the nest. -/
-theorem optional_exact (n : Nest) :
-    (validate n none = .ok () ↔ n.opt = true) ∧
-    (∀ a, validate n (some a) = validateL n.layers n.base a) := by
+theorem chain_accepts_iff_all (ls : List Layer) (b : Base) (a : NAcct) :
+    validateL ls b a = .ok () ↔ (∀ l ∈ ls, LayerOk b a l) ∧ BaseOk b a := by
+  rw [validateL_eq_runChecks, runChecks_ok_iff]
   constructor
-  · cases h : n.opt <;> simp [validate, h]
-  · intro a; rfl
+  · intro h
+    refine ⟨fun l hl c hc => h c ((mem_checksL c ls b).mpr (Or.inr ⟨l, hl, hc⟩)),
+      fun c hc => h c ((mem_checksL c ls b).mpr (Or.inl hc))⟩
+  · rintro ⟨hl, hb⟩ c hc
+    rcases (mem_checksL c ls b).mp hc with h | ⟨l, hl', h⟩
+    · exact hb c h
+    · exact hl l hl' c h
 
-/-! ## Non-vacuity: the hypotheses are satisfiable by a concrete non-trivial nest / account -/
+theorem checkKey_ok_iff (k : List Nat) (d : DSet) : checkKey k d = .ok () ↔ KeyOk k d := by
+  induction d with
+  | single ls b a => simp [checkKey, KeyOk]
+  | some d ih => simpa [checkKey, KeyOk] using ih
+  | boxed d ih => simpa [checkKey, KeyOk] using ih
+  | absent => simp [checkKey, KeyOk]
+  | addr k' d _ => simp [checkKey, KeyOk]
+  | nil => simp [checkKey, KeyOk]
+  | cons d r _ _ => simp [checkKey, KeyOk]
+
+/-- Arbitrary nestings — any depth, any mix of wrapper layers and carriers; arrays / `Vec` / `Rest`
+/ struct fields element by element — accept iff every layer, base, address check and element
+accepts. -/
+theorem nest_accepts_iff_all (d : DSet) : validateD d = .ok () ↔ AllOk d := by
+  induction d with
+  | single ls b a => exact chain_accepts_iff_all ls b a
+  | absent => simp [validateD, AllOk]
+  | some d ih => simpa [validateD, AllOk] using ih
+  | boxed d ih => simpa [validateD, AllOk] using ih
+  | addr k d ih =>
+    simp only [validateD, AllOk]
+    rw [← checkKey_ok_iff, ← ih]
+    cases checkKey k d with
+    | error e => simp
+    | ok u => cases u; simp
+  | nil => simp [validateD, AllOk]
+  | cons d r ihd ihr =>
+    simp only [validateD, AllOk]
+    rw [← ihd, ← ihr]
+    cases validateD d with
+    | error e => simp
+    | ok u => cases u; simp
+
+/-- The elements of a sequence carrier (`[T; N]`, `Vec<T>`, `Rest<T>`, struct fields). -/
+def elems : DSet → List DSet
+  | .cons d rest => d :: elems rest
+  | _ => []
+
+/-- A well-formed sequence: `nil`, or an element followed by a sequence (what `[T; N]`, `Vec`, `Rest`
+and struct fields decode to). -/
+def IsSeq : DSet → Prop
+  | .nil => True
+  | .cons _ rest => IsSeq rest
+  | _ => False
+
+/-- List / array carriers: accepted iff EVERY element is accepted. -/
+theorem seq_accepts_iff_forall (d : DSet) (hs : IsSeq d) :
+    validateD d = .ok () ↔ ∀ e ∈ elems d, validateD e = .ok () := by
+  induction d with
+  | nil => simp [validateD, elems]
+  | cons d r _ ihr =>
+    simp only [validateD, elems, List.forall_mem_cons]
+    rw [← ihr hs]
+    cases validateD d with
+    | error e => simp
+    | ok u => cases u; simp
+  | single ls b a => exact absurd hs (by simp [IsSeq])
+  | absent => exact absurd hs (by simp [IsSeq])
+  | some x _ => exact absurd hs (by simp [IsSeq])
+  | boxed x _ => exact absurd hs (by simp [IsSeq])
+  | addr k x _ => exact absurd hs (by simp [IsSeq])
+
+/-- Validation never consults the advertised `SingleSetMeta`: whatever each wrapper is told about
+the meta of what it wraps (`T::meta()`), the result is the same; in particular the layers that ONLY
+advertise (`advw`, `advs`, `Box`, `MaybeSigner<false>`, `MaybeMut<false>`) can be dropped from a
+chain without changing its verdict, and a `Mut` / `Signer` above a layer that already advertises
+the flag still performs its own check. -/
+theorem accepts_independent_of_meta (M M' : List Layer → Base → Meta) (ls : List Layer) (b : Base)
+    (a : NAcct) :
+    validateWith M ls b a = validateWith M' ls b a ∧
+    (∀ l, (l = .advw ∨ l = .advs ∨ l = .box ∨ l = .nsigner ∨ l = .nmut) →
+      validateL (l :: ls) b a = validateL ls b a) ∧
+    (a.a.writable = false → ∃ e, validateL (.wr :: .advw :: ls) b a = .error e) ∧
+    (a.signer = false → ∃ e, validateL (.signer :: .advs :: ls) b a = .error e) := by
+  refine ⟨by rw [validateWith_eq_runChecks, validateWith_eq_runChecks], ?_, ?_, ?_⟩
+  · rintro l (rfl | rfl | rfl | rfl | rfl) <;> simp [validateL, validateWith]
+  · intro hw
+    simp only [validateL, validateWith, checkWritable, evalCheck, hw]
+    cases validateWith advertised ls b a with
+    | error e => exact ⟨e, rfl⟩
+    | ok u => cases u; exact ⟨_, rfl⟩
+  · intro hs
+    simp only [validateL, validateWith, checkSigner, evalCheck, hs]
+    cases validateWith advertised ls b a with
+    | error e => exact ⟨e, rfl⟩
+    | ok u => cases u; exact ⟨_, rfl⟩
+
+/-- The reported error is that of the FIRST failing check in execution order (`checksD`: a field's
+address check before the field's validation; fields, array / `Vec` / `Rest` elements left to right;
+within a chain the inner layers before the outer `Signer` / `Mut`, address / seeds / init checks
+before what they wrap): every check before it passes, and it fails with exactly that error. -/
+theorem first_error_position (d : DSet) :
+    validateD d = runAll (checksD d) ∧
+    (∀ e, validateD d = .error e ↔
+      ∃ pre a c post, checksD d = pre ++ (a, c) :: post ∧
+        (∀ x ∈ pre, evalCheck x.1 x.2 = .ok ()) ∧ evalCheck a c = .error e) ∧
+    (∀ ls b a, checksD (.single ls b a) = (checksL ls b).map (fun c => (a, c))) ∧
+    (∀ k d', checksD (.addr k d') = keyChecks k d' ++ checksD d') ∧
+    (∀ d' r, checksD (.cons d' r) = checksD d' ++ checksD r) ∧
+    (∀ ls b, checksL (.signer :: ls) b = checksL ls b ++ [.isSigner]) ∧
+    (∀ ls b, checksL (.wr :: ls) b = checksL ls b ++ [.isWritable]) ∧
+    (∀ k ls b, checksL (.addr k :: ls) b = .keyIs k .addressMismatch :: checksL ls b) :=
+  ⟨validateD_eq_runAll d, fun e => by rw [validateD_eq_runAll]; exact runAll_error_iff _ e,
+    fun _ _ _ => rfl, fun _ _ => rfl, fun _ _ => rfl, fun _ _ => rfl, fun _ _ => rfl,
+    fun _ _ _ => rfl⟩
+
+/-- A rejected set is rejected with the error of a check that really fails on one of its accounts. -/
+theorem error_names_failing_check (d : DSet) (e : Err) (h : validateD d = .error e) :
+    ∃ x ∈ checksD d, evalCheck x.1 x.2 = .error e := by
+  obtain ⟨pre, a, c, post, heq, _, hfail⟩ := ((first_error_position d).2.1 e).mp h
+  exact ⟨(a, c), by rw [heq]; simp, hfail⟩
+
+/-- The inner layers are checked before the outer ones: an error raised below a signer / mutable /
+pass-through wrapper is reported unchanged. -/
+theorem inner_error_first (l : Layer) (ls : List Layer) (b : Base) (a : NAcct) (e : Err)
+    (hl : l = .signer ∨ l = .wr ∨ l = .nsigner ∨ l = .nmut ∨ l = .advw ∨ l = .advs ∨ l = .box)
+    (h : validateL ls b a = .error e) : validateL (l :: ls) b a = .error e := by
+  unfold validateL at h ⊢
+  rcases hl with rfl | rfl | rfl | rfl | rfl | rfl | rfl <;> simp [validateWith, h]
+
+/-- Optional accounts: no account left, or the program-id placeholder, decodes as absent and is
+accepted (also by an address check above it); anything else delegates to the inner set. -/
+theorem optional_exact (progId : List Nat) (fuel : Nat) (s : ASet) :
+    decode progId fuel (.opt s) [] = .ok (.absent, []) ∧
+    (∀ a rest, fastEq32 a.key progId = true →
+      decode progId fuel (.opt s) (a :: rest) = .ok (.absent, rest)) ∧
+    (∀ a rest, fastEq32 a.key progId = false →
+      decode progId fuel (.opt s) (a :: rest) =
+        match decode progId fuel s (a :: rest) with
+        | .error e => .error e
+        | .ok (d, r) => .ok (.some d, r)) ∧
+    validateD .absent = .ok () ∧ (∀ k, validateD (.addr k .absent) = .ok ()) ∧
+    (∀ d, validateD (.some d) = validateD d) := by
+  refine ⟨by simp [decode], ?_, ?_, rfl, fun _ => rfl, fun _ => rfl⟩
+  · intro a rest h; simp [decode, h]
+  · intro a rest h
+    simp only [decode, h]
+    cases decode progId fuel s (a :: rest) with
+    | error e => rfl
+    | ok p => cases p; rfl
+
+/-! ## Non-vacuity: concrete nests of depth 5 with carriers -/
 
 def exKey : List Nat := (List.range 32).map (· + 1)
-def exAcct : Acct := { key := exKey, owner := systemId, signer := true, writable := false }
+def exProg : List Nat := List.replicate 32 7
+def exT : PType := { progId := exProg, disc := [1, 2, 3, 4, 5, 6, 7, 8], body := 2 }
+def mkA (key owner : List Nat) (s w : Bool) (data : List Nat) : NAcct :=
+  { key, signer := s, a := { owner, data, writable := w, borrow := Borrow.free, orig := data.length } }
+def exSys : NAcct := mkA exKey systemId true false []
+def exAcc : NAcct := mkA exKey exProg true true [1, 2, 3, 4, 5, 6, 7, 8, 0, 0]
 
-example : acctWF exAcct ∧ layerWF (.addr exKey) ∧ baseWF (.program exKey) := by
-  refine ⟨⟨⟨by decide, by decide⟩, systemId_key32⟩, ⟨by decide, by decide⟩, ⟨by decide, by decide⟩⟩
-
-example : validateL [.addr exKey, .signer, .nmut] .sysacct exAcct = .ok () := by rfl
-example : validateL [.signer, .wr] .sysacct exAcct = .error .expectedWritable := by rfl
-example : validateL [.wr, .signer] (.program systemId) exAcct = .error .incorrectProgramId := by rfl
+example : validateL [.addr exKey, .signer, .box, .nmut, .advw] .sysacct exSys = .ok () := by rfl
+example : validateL [.signer, .wr] .sysacct exSys = .error .expectedWritable := by rfl
+example : validateL [.wr, .box, .signer] (.account exT) exAcc = .ok () := by rfl
+example : validateL [.init true, .signer] (.account exT) exAcc = .ok () := by rfl
+-- a System-owned account under Init needs creating: refused for a read-only account
+example : validateL [.init true, .signer] (.account exT) exSys = .error .expectedWritable := by rfl
+-- [Option<Signer<…>>; 3] with an absent middle element, then Rest<SystemAccount> (as decoded)
+example : validateD
+    (.cons (.cons (.some (.single [.signer] .info exSys)) (.cons .absent
+        (.cons (.some (.single [.signer] .info exSys)) .nil)))
+      (.cons (.cons (.single [] .sysacct exSys) (.cons (.single [] .sysacct exSys) .nil)) .nil))
+    = .ok () := by rfl
+-- the FIRST failing element's error is reported (second array element: read-only and not a signer:
+-- the inner `Mut` check comes before the outer `Signer` check)
+example : validateD
+    (.cons (.single [.signer, .wr] .info (mkA exKey systemId true true []))
+      (.cons (.single [.signer, .wr] .info (mkA exKey systemId false false []))
+        (.cons (.single [.signer, .wr] .info exSys) .nil)))
+    = .error .expectedWritable := by rfl
+-- the address check of a field runs before the field's own validation
+example : validateD (.addr exProg (.boxed (.single [.signer] .info (mkA exKey systemId false false []))))
+    = .error .addressMismatch := by rfl
 
 end Account.C09
